@@ -39,6 +39,10 @@ func mixedGenesis(rng *rand.Rand) (GenesisSpec, map[string]int) {
 			for s := 1; s <= 8; s++ {
 				c.Storage[fmt.Sprintf("0x%064x", s)] = fmt.Sprintf("0x%064x", 0xff)
 			}
+		case "fwd":
+			c.Storage = fwdStorage()
+		case "vw":
+			c.Balance = "700000000000000000000"
 		case "sd", "proxy", "factory":
 			c.Balance = "5000000000000000000"
 		case "sd2", "sd3":
